@@ -226,6 +226,7 @@ def stride_census(ctx, fn, name, tag, why):
         return False
     ins, l = best
     a.solve(l)
+    esz = a.elem(ins.ops[0].ty) if ins.ops[0].ty is not None else 8      # element size of this configuration (float / double)
     d = fn.defs.get(ins.ops[0].v)
     loads = []
     st = [d]
@@ -243,7 +244,7 @@ def stride_census(ctx, fn, name, tag, why):
     sub = {p_: l.closed[r] for r, p_ in l.P.items()}
     for nm, ptr, blk in [('Z', ins.ops[1], ins.block)] + [(None, x.ops[0], x.block) for x in loads]:
         e = sp.expand(a.ev(ptr, blk).subs(sub, simultaneous=True))
-        stride = sp.expand(e.coeff(l.counter, 1) / 8)
+        stride = sp.expand(e.coeff(l.counter, 1) / esz)
         b = root_param(a, fn, ptr)
         if b is not None:
             vec[b] = stride
